@@ -42,12 +42,13 @@ type schedReader struct {
 	calls       int
 	failAt      int
 	eofWithData bool
+	failWithData bool // the failing call still delivers its bytes (io.Reader allows n > 0 together with an error)
 }
 
 func (s *schedReader) Read(p []byte) (int, error) {
 	call := s.calls
 	s.calls++
-	if call == s.failAt {
+	if call == s.failAt && !(s.failWithData && s.pos < len(s.data)) {
 		return 0, errInjected
 	}
 	if s.pos >= len(s.data) {
@@ -70,13 +71,16 @@ func (s *schedReader) Read(p []byte) (int, error) {
 	}
 	copy(p, s.data[s.pos:s.pos+n])
 	s.pos += n
+	if call == s.failAt {
+		return n, errInjected
+	}
 	if s.eofWithData && s.pos >= len(s.data) {
 		return n, io.EOF
 	}
 	return n, nil
 }
 
-var csvCellAlphabet = []string{"", "a", "b", "ab", "1", "-2", "0", "1.5", "NaN", "true", "false", "x y", " lead", "trail ", "é", "q\"t", "\"", "\"\"", "a,b", ",", "l\nf", "\n", "a;b", "a\tb", "a|b", "zz", "A", "\xff", "1e3", "+Inf", "7", "T"}
+var csvCellAlphabet = []string{"", "a", "b", "ab", "1", "-2", "0", "1.5", "NaN", "true", "false", "x y", " lead", "trail ", "é", "q\"t", "\"", "\"\"", "a,b", ",", "l\nf", "\n", "a;b", "a\tb", "a|b", "zz", "A", "\xff", "1e3", "+Inf", "7", "T", "007", "010", "-0020", "0x1f", "0b11", "0o17", "1_000", "+5", " 5", "5 ", ".5", "5.", "Inf", "-inf", "nan", "TRUE", "t", "9223372036854775807", "9223372036854775808", "1e400"}
 
 type csvDoc struct {
 	delim  byte
@@ -114,6 +118,9 @@ func genCsvDoc(r *tx.Rng, size int, numeric bool) csvDoc {
 			switch k {
 			case 1:
 				cell = strconv.Itoa(r.Intn(7) - 2)
+				if r.P(1, 12) {
+					cell = []string{"007", "010", "-0020", "0x1f", "1_000", "+5", "0b11"}[r.Intn(7)]
+				}
 			case 2:
 				cell = []string{"1.5", "-0", "2", "", "NaN", "1e3", "0.1", "+Inf"}[r.Intn(8)]
 			case 3:
@@ -240,15 +247,15 @@ func schedToks(s []int) []string {
 	return t
 }
 
-func runCsvRaw(w *tx.W, d csvDoc, sched []int, eofWithData bool, failAt int) {
-	w.Line(append([]string{"C", tx.Int(int(d.delim)), tx.Hex(d.doc), tx.Bool01(eofWithData), tx.Int(failAt)}, schedToks(sched)...)...)
+func runCsvRaw(w *tx.W, d csvDoc, sched []int, eofWithData bool, failAt int, fwd bool) {
+	w.Line(append([]string{"C", tx.Int(int(d.delim)), tx.Hex(d.doc), tx.Bool01(eofWithData), tx.Int(failAt), tx.Bool01(fwd)}, schedToks(sched)...)...)
 	func() {
 		defer func() {
 			if p := recover(); p != nil {
 				w.Line("CR", "P", tx.HexS(fmt.Sprint(p)))
 			}
 		}()
-		rd := verifhooks.NewCSVReader(&schedReader{data: d.doc, sched: append([]int(nil), sched...), failAt: failAt, eofWithData: eofWithData}, d.delim)
+		rd := verifhooks.NewCSVReader(&schedReader{data: d.doc, sched: append([]int(nil), sched...), failAt: failAt, eofWithData: eofWithData, failWithData: fwd}, d.delim)
 		toks := []string{"CR", "ok", ""}
 		nrows := 0
 		var final error
@@ -291,7 +298,7 @@ func csvRawSection(r *tx.Rng, w *tx.W, size int, opt map[string]string) {
 	}
 	for i := 0; i < n; i++ {
 		sched := genSchedule(r, len(d.doc))
-		runCsvRaw(w, d, sched, r.P(1, 3), -1)
+		runCsvRaw(w, d, sched, r.P(1, 3), -1, false)
 	}
 	if opt["faults"] != "" {
 		// every fault position for one schedule: the reader is called at most len(doc)+2 times
@@ -300,8 +307,9 @@ func csvRawSection(r *tx.Rng, w *tx.W, size int, opt map[string]string) {
 		if len(sched) == 0 {
 			calls = 2
 		}
+		fwd := r.Bool()
 		for k := 0; k < calls; k++ {
-			runCsvRaw(w, d, sched, false, k)
+			runCsvRaw(w, d, sched, false, k, fwd)
 		}
 	}
 }
@@ -329,8 +337,45 @@ func emitParseOracle(w *tx.W, cells map[string]bool) {
 	}
 }
 
+// a long document (more rows than the 1000-row resize threshold and than some row count hints)
+func genBigCsvDoc(r *tx.Rng) csvDoc {
+	d := csvDoc{delim: ','}
+	nrows := r.PickInt([]int{999, 1000, 1001, 2100, 2600})
+	ncols := 2 + r.Intn(2)
+	hdr := []string{"a", "b", "c"}[:ncols]
+	d.cells = append(d.cells, hdr)
+	for i := 0; i < nrows; i++ {
+		row := make([]string, ncols)
+		for c := range row {
+			switch c {
+			case 0:
+				row[c] = strconv.Itoa(i)
+			case 1:
+				row[c] = "s" + strconv.Itoa(i%17)
+			default:
+				row[c] = strconv.Itoa(i*3) + ".5"
+			}
+		}
+		d.cells = append(d.cells, row)
+	}
+	for _, row := range d.cells {
+		for c, cell := range row {
+			d.doc = append(d.doc, cell...)
+			if c < len(row)-1 {
+				d.doc = append(d.doc, ',')
+			}
+		}
+		d.doc = append(d.doc, '\n')
+	}
+	return d
+}
+
 func csvReadSection(r *tx.Rng, w *tx.W, size int, opt map[string]string) {
 	d := genCsvDoc(r, size, !r.P(1, 4))
+	big := opt["faults"] == "" && r.P(1, 60)
+	if big {
+		d = genBigCsvDoc(r)
+	}
 	ncols := 0
 	if len(d.cells) > 0 {
 		ncols = len(d.cells[0])
@@ -343,8 +388,11 @@ func csvReadSection(r *tx.Rng, w *tx.W, size int, opt map[string]string) {
 		alias = "col"
 	}
 	hint := r.PickInt([]int{0, 0, 10, 3000})
+	if big {
+		hint = r.PickInt([]int{2001, 2500, 3000, 1500})
+	}
 	var headers []string
-	if r.P(1, 4) && ncols > 0 {
+	if r.P(1, 4) && ncols > 0 && !big {
 		for c := 0; c < ncols; c++ {
 			headers = append(headers, []string{"h0", "h1", "h2", "h3", "h1"}[r.Intn(5)])
 		}
@@ -386,11 +434,13 @@ func csvReadSection(r *tx.Rng, w *tx.W, size int, opt map[string]string) {
 	sched := genSchedule(r, len(d.doc))
 	eofWithData := r.P(1, 3)
 	failAt := -1
+	fwd := false
 	if opt["faults"] != "" {
 		failAt = r.Intn(len(d.doc) + 2)
 		if len(sched) == 0 {
 			failAt = r.Intn(2)
 		}
+		fwd = r.Bool()
 	}
 	toks := []string{"CV", tx.Int(int(d.delim)), tx.Bool01(emptyNull), tx.Bool01(ignoreEmpty), tx.Bool01(rename), tx.HexS(alias), tx.Int(hint)}
 	toks = append(toks, "H")
@@ -416,7 +466,7 @@ func csvReadSection(r *tx.Rng, w *tx.W, size int, opt map[string]string) {
 			toks = append(toks, tx.HexS(v))
 		}
 	}
-	toks = append(toks, tx.Hex(d.doc), tx.Bool01(eofWithData), tx.Int(failAt))
+	toks = append(toks, tx.Hex(d.doc), tx.Bool01(eofWithData), tx.Int(failAt), tx.Bool01(fwd))
 	toks = append(toks, schedToks(sched)...)
 	w.Line(toks...)
 	fns := []csv.ConfigFunc{csv.Delimiter(d.delim), csv.EmptyNull(emptyNull), csv.IgnoreEmptyLines(ignoreEmpty),
@@ -432,7 +482,7 @@ func csvReadSection(r *tx.Rng, w *tx.W, size int, opt map[string]string) {
 	}
 	g := &gen{r: r, w: w, size: size, opt: opt}
 	qf, pmsg := safely(func() qframe.QFrame {
-		return qframe.ReadCSV(&schedReader{data: d.doc, sched: append([]int(nil), sched...), failAt: failAt, eofWithData: eofWithData}, fns...)
+		return qframe.ReadCSV(&schedReader{data: d.doc, sched: append([]int(nil), sched...), failAt: failAt, eofWithData: eofWithData, failWithData: fwd}, fns...)
 	})
 	if pmsg != "" {
 		w.Line("R", "0", "P", tx.HexS(pmsg))
